@@ -4,6 +4,12 @@ import (
 	"encoding/json"
 	"fmt"
 	"net/url"
+	"strings"
+	"time"
+
+	"verifharness/internal/jws"
+
+	"github.com/dunglas/mercure"
 
 	"verifharness/internal/gen"
 	"verifharness/internal/h"
@@ -11,6 +17,22 @@ import (
 
 func init() {
 	register("hub", "C01", runHub)
+	register("overflow", "C13", runOverflow)
+}
+
+func runOverflow(c *h.Ctx, r *h.Report) {
+	r.Rule = "histories around the buffer capacity (1000) through the real handlers under synctest: a subscriber whose writer is stalled while capacity-1 … capacity+3 matching updates are published (overflow during live delivery at exactly capacity+1 pending: 1 in flight + capacity buffered), then released; other subscribers reading normally; on Bolt, replays from 'earliest' and from a stored id larger / smaller than the buffer (overflow during history replay); subscriptions API listing afterwards. Full observable state compared with the model after every op; the property's oracle (a subscriber that missed an update is ended and no longer listed, the others got everything) evaluated on the implementation alone. Non-trivial = case in which some buffer overflowed; distinct by content."
+	o := gen.NewOracle()
+	g := installCountingUUID()
+	n := c.Scale(12, 400)
+	for i := 0; i < n; i++ {
+		cs := genOverflowCase(c.Rand.Fork(), 1000)
+		runHubCase(c, r, o, cs, g)
+		r.Nontrivial(fmt.Sprint(cs))
+		if i < 2 {
+			r.Sample(cs.Ops)
+		}
+	}
 }
 
 type hubPool struct {
@@ -229,7 +251,220 @@ func runHub(c *h.Ctx, r *h.Report) {
 	}
 }
 
-func hubOracles(hr *hubRun, cs hubCase, o *gen.Oracle) []h.Violation { return nil }
+// hubOracles evaluates the properties' own oracles on the implementation's behaviour alone
+// (no reference to the Lean model): used to decide whether a disagreement is a defect of /repo.
+// genOverflowCase: buffers around the capacity — a stalled subscriber under live load, and replays
+// larger than the buffer.
+func genOverflowCase(rr *h.Rand, capacity int) hubCase {
+	cs := hubCase{ExpectAll: true, Cfg: hubCfg{PubAlg: "HS256", SubAlg: "HS256", Anonymous: true, Bolt: rr.Bool(), Subscriptions: rr.Chance(1, 3)}}
+	star := claimsJSON("publish", []string{"*"}, "")
+	pubN := func(id string, n int) hubOp {
+		return hubOp{Op: "pub", Form: url.Values{"topic": {"t"}, "id": {id}, "data": {"d"}}, Claims: star, Repeat: n}
+	}
+	cs.Ops = append(cs.Ops, hubOp{Op: "sub", Label: 0, Topics: []string{"*"}})
+	cs.Ops = append(cs.Ops, hubOp{Op: "sub", Label: 1, Topics: []string{"t"}})
+	cs.Ops = append(cs.Ops, hubOp{Op: "stall", Label: 1})
+	// pending around the capacity: cap-1, cap, cap+1 (+1 in flight), cap+2
+	n := capacity + h.Pick(rr, []int{-1, 0, 1, 2, 3})
+	cs.Ops = append(cs.Ops, pubN("a", n))
+	if rr.Bool() {
+		cs.Ops = append(cs.Ops, hubOp{Op: "sub", Label: 2, Topics: []string{"*"}})
+	}
+	cs.Ops = append(cs.Ops, pubN("b", 1+rr.Intn(3)))
+	cs.Ops = append(cs.Ops, hubOp{Op: "unstall", Label: 1})
+	cs.Ops = append(cs.Ops, pubN("c", 2))
+	if cs.Cfg.Bolt {
+		// replay larger / smaller than the buffer
+		cs.Ops = append(cs.Ops, hubOp{Op: "sub", Label: 3, Topics: []string{"t"}, LeidQ: "earliest"})
+		cs.Ops = append(cs.Ops, hubOp{Op: "sub", Label: 4, Topics: []string{"t"}, LeidH: fmt.Sprintf("a-%d", n-capacity+rr.Intn(4))})
+		cs.Ops = append(cs.Ops, pubN("d", 1))
+	}
+	if cs.Cfg.Subscriptions {
+		cs.Ops = append(cs.Ops, hubOp{Op: "api.list", Claims: claimsJSON("subscribe", []string{"*"}, "")})
+	}
+
+	return cs
+}
+
+func hubOracles(hr *hubRun, cs hubCase, o *gen.Oracle) []h.Violation {
+	var vs []h.Violation
+	add := func(key, what string) {
+		vs = append(vs, h.Violation{Key: key, What: what, Replay: map[string]any{"family": "hub", "case": cs}})
+	}
+	// what the harness itself knows about the requests it made
+	type subInfo struct {
+		sels, claim []string
+	}
+	subs := map[int]subInfo{}
+	pubs := map[string]struct {
+		topics  []string
+		private bool
+	}{}
+	for _, op := range cs.Ops {
+		switch op.Op {
+		case "sub":
+			si := subInfo{sels: op.Topics}
+			if op.Claims != "" {
+				fa := jws.Analyse(jws.Mint(jws.NewKey("HS256", 1), op.Claims), nil, time.Now())
+				si.claim = fa.Claims.Mercure.Subscribe
+			}
+			subs[op.Label] = si
+		case "pub":
+			if id := op.Form.Get("id"); id != "" {
+				reps := max(op.Repeat, 1)
+				for i := 0; i < reps; i++ {
+					k := id
+					if reps > 1 {
+						k = fmt.Sprintf("%s-%d", id, i)
+					}
+					pubs[k] = struct {
+						topics  []string
+						private bool
+					}{op.Form["topic"], len(op.Form["private"]) != 0}
+				}
+			}
+		}
+	}
+	matchAny := func(topics, sels []string) bool {
+		for _, t := range topics {
+			for _, x := range sels {
+				if o.Spec(t, x) {
+					return true
+				}
+			}
+		}
+
+		return false
+	}
+	open := 0
+	for _, lc := range hr.conns {
+		si := subs[lc.label]
+		body := lc.w.Body()
+		if !onlyCommentsAndEvents(body) || !strings.HasPrefix(body, ":\n") {
+			add("C12:stream-contains-something-else", fmt.Sprintf("stream of connection %d is not made of ':' comments and events only", lc.label))
+		}
+		if ct := lc.w.Header().Get("Content-Type"); ct != "text/event-stream" || !strings.Contains(lc.w.Header().Get("Cache-Control"), "no-cache") {
+			add("C12:stream-headers", fmt.Sprintf("connection %d: Content-Type %q Cache-Control %q", lc.label, ct, lc.w.Header().Get("Cache-Control")))
+		}
+		seen := map[string]int{}
+		for _, e := range sseParse(body) {
+			seen[e.ID]++
+			var topics []string
+			private := false
+			if p, ok := pubs[e.ID]; ok {
+				topics, private = p.topics, p.private
+			} else if strings.HasPrefix(e.Data, "{") && strings.Contains(e.Data, `"type": "Subscription"`) {
+				var d struct {
+					ID string `json:"id"`
+				}
+				json.Unmarshal([]byte(e.Data), &d)
+				topics, private = []string{d.ID}, true
+				// C17: the event's topic/id is the percent-encoded subscription URL
+				if !pctSubscriptionID(d.ID) {
+					add("C17:event-id-not-percent-encoded", fmt.Sprintf("subscription event id %q is not a percent-encoded /.well-known/mercure/subscriptions/{topic}/{subscriber} URL", d.ID))
+				}
+			} else {
+				continue // generated id of a plain publish: checked through the model only
+			}
+			if !matchAny(topics, si.sels) {
+				add("C05:delivered-to-non-matching-subscriber", fmt.Sprintf("connection %d (selectors %q) received update %q with topics %q", lc.label, si.sels, e.ID, topics))
+			}
+			if private && !matchAny(topics, si.claim) {
+				add("C01:private-update-delivered-without-authorisation", fmt.Sprintf("connection %d (subscribe claim %q) received private update %q with topics %q", lc.label, si.claim, e.ID, topics))
+			}
+		}
+		for id, n := range seen {
+			if n > 1 && id != "" {
+				add("C06:update-delivered-more-than-once", fmt.Sprintf("connection %d received update %q %d times", lc.label, id, n))
+			}
+		}
+		if !lc.done.Load() {
+			open++
+		}
+	}
+	// C13: a subscriber that cannot be served is cut off, not starved
+	if cs.ExpectAll {
+		joined := map[int]int{}
+		stalled := map[int]bool{}
+		n := 0
+		for _, op := range cs.Ops {
+			switch op.Op {
+			case "pub":
+				n += max(op.Repeat, 1)
+			case "sub":
+				joined[op.Label] = n
+			case "stall":
+				stalled[op.Label] = true
+			case "unstall":
+				stalled[op.Label] = false
+			}
+		}
+		for _, lc := range hr.conns {
+			if lc.done.Load() || stalled[lc.label] || lc.epoch != hr.epoch {
+				continue
+			}
+			got := len(sseParse(lc.w.Body()))
+			if want := n - joined[lc.label]; got < want && subs[lc.label].sels != nil && !hr.replayed[lc.label] {
+				add("C13:subscriber-starved-not-cut-off", fmt.Sprintf("connection %d is still open and listed at quiescence but has received only %d of the %d matching updates published since it connected: after its buffer overflowed the hub stopped feeding it without ending its stream", lc.label, got, want))
+			}
+		}
+	}
+	// C20: gauge = open streams, total = accepted connections
+	if g := int(metricValue(hr.reg, "mercure_subscribers_connected")); g != open {
+		add("C20:gauge-differs-from-open-streams", fmt.Sprintf("mercure_subscribers_connected=%d but %d streams are open", g, open))
+	}
+	if tot := int(metricValue(hr.reg, "mercure_subscribers_total")); tot != len(hr.conns) {
+		add("C20:total-differs-from-accepted-streams", fmt.Sprintf("mercure_subscribers_total=%d but %d streams were accepted", tot, len(hr.conns)))
+	}
+	// C18 / C13: the index lists exactly the open connections of the current hub
+	if !hr.stopped {
+		_, listed, _ := hr.f.tr.(mercure.TransportSubscribers).GetSubscribers()
+		want := map[string]bool{}
+		for _, lc := range hr.conns {
+			if !lc.done.Load() && lc.epoch == hr.epoch {
+				want[sidOf[lc.label]] = true
+			}
+		}
+		for _, s := range listed {
+			if !want[s.ID] {
+				add("C18:listed-subscriber-is-not-connected", fmt.Sprintf("subscriber %s (connection %s) is listed but its stream has ended", s.ID, hr.labelOf(s.ID)))
+			}
+			delete(want, s.ID)
+		}
+		for sid := range want {
+			add("C18:connected-subscriber-not-listed", fmt.Sprintf("connection %s is open but not listed", hr.labelOf(sid)))
+		}
+	}
+
+	return vs
+}
+
+func pctSubscriptionID(id string) bool {
+	const pre = "/.well-known/mercure/subscriptions/"
+	if !strings.HasPrefix(id, pre) {
+		return false
+	}
+	segs := strings.Split(id[len(pre):], "/")
+	if len(segs) != 2 {
+		return false
+	}
+	for _, s := range segs {
+		for i := 0; i < len(s); i++ {
+			c := s[i]
+			switch {
+			case c >= 'a' && c <= 'z', c >= 'A' && c <= 'Z', c >= '0' && c <= '9', c == '-', c == '.', c == '_', c == '~':
+			case c == '%' && i+2 < len(s) && isHex(s[i+1]) && isHex(s[i+2]):
+				i += 2
+			default:
+				return false
+			}
+		}
+	}
+
+	return true
+}
+
+func isHex(c byte) bool { return c >= '0' && c <= '9' || c >= 'a' && c <= 'f' || c >= 'A' && c <= 'F' }
 
 // hubCorpus: hand-written and minimised past cases, run first.
 func hubCorpus() []hubCase {
